@@ -363,6 +363,58 @@ func c09a(c *Ctx, r *Report) {
 		})
 		r.Check(bad == "" && loopOK, clause, "R5 DEPENDENCE", g.Name, c.pos(g.Decl.Pos()),
 			"only a nonterminal after the dot contributes, and it contributes (rule, 0) for every rule whose left-hand side is that nonterminal", "closure items are not 'all rules of the nonterminal after the dot, dot at 0': "+bad)
+		// which symbol: the one tested and matched is the item's rule's right part at the item's dot, and the rules
+		// are scanned once per call — closure never looks past the symbol after the dot
+		pc := pathCtxFor(g)
+		pc.subst = map[types.Object]string{}
+		if g.Decl.Recv != nil && len(g.Decl.Recv.List) == 1 && len(g.Decl.Recv.List[0].Names) == 1 {
+			pc.subst[ginfo.Defs[g.Decl.Recv.List[0].Names[0]]] = "G"
+		}
+		if ps := g.Decl.Type.Params.List; len(ps) == 1 && len(ps[0].Names) == 1 {
+			pc.subst[ginfo.Defs[ps[0].Names[0]]] = "IT"
+		}
+		const want = "G.ProductoinRules[IT.RuleIndex].RighPart[IT.Dot]"
+		why, seen := "", 0
+		parents := parentMap(g.Decl.Body)
+		ast.Inspect(g.Decl.Body, func(n ast.Node) bool {
+			switch x := n.(type) {
+			case *ast.SelectorExpr:
+				fv := fieldVar(ginfo, x)
+				if fv == nil {
+					return true
+				}
+				if fv.Name() == "IsNonTerminator" {
+					seen++
+					if got := pc.path(x.X); got != want {
+						why = "the nonterminal test is on " + got + ", not on the symbol after the dot"
+					}
+				}
+				if fv.Name() == "ID" {
+					if inner := fieldVar(ginfo, x.X); inner != nil && inner.Name() == "LeftPart" {
+						return true
+					}
+					seen++
+					if got := pc.path(x.X); got != want {
+						why = "rules are matched against " + got + ", not against the symbol after the dot"
+					}
+				}
+			case *ast.RangeStmt:
+				if fv := fieldVar(ginfo, x.X); fv != nil && fv.Name() == "ProductoinRules" {
+					for p := parents[n]; p != nil; p = parents[p] {
+						switch p.(type) {
+						case *ast.RangeStmt, *ast.ForStmt:
+							why = "the scan of the rules is repeated inside another loop"
+						}
+					}
+				}
+			}
+			return true
+		})
+		if why == "" && seen < 2 {
+			why = "no nonterminal test and rule match on the symbol after the dot were found"
+		}
+		r.Check(why == "", clause, "R1 PROVENANCE", g.Name+"/only-the-symbol-after-the-dot", c.pos(g.Decl.Pos()),
+			"the symbol tested and matched is "+want+", and the rules are scanned once", why)
 	}
 }
 
